@@ -134,6 +134,55 @@ def replay_frames(job, obl, inputs, workdir):
     return rc == 1, out
 
 
+REPLAY_LAYOUT = r'''
+// Native replay for the offsetDir frame obligation: the REAL libcola (rebuilt from the working tree).  The same layout job on
+// equal fresh inputs whose nodes all start at one point (so offsetDir is drawn on) is run twice in one process, with a different
+// coincident-start layout in between; the two results must be identical (C20: "regardless of what was computed before").
+#include "libcola/cola.h"
+#include <cstdio>
+#include <cmath>
+#include <vector>
+using namespace cola;
+static std::vector<double> run(unsigned n, unsigned extraEdges) {
+  std::vector<vpsc::Rectangle*> rs; std::vector<Edge> es;
+  for (unsigned i = 0; i < n; ++i) rs.push_back(new vpsc::Rectangle(0, 20, 0, 20));
+  for (unsigned i = 0; i + 1 < n; ++i) es.push_back(Edge(i, i + 1));
+  for (unsigned i = 0; i < extraEdges && i + 2 < n; ++i) es.push_back(Edge(i, i + 2));
+  EdgeLengths el(es.size(), 1.0);
+  ConstrainedFDLayout alg(rs, es, 60, el);
+  alg.run();
+  std::vector<double> out;
+  for (unsigned i = 0; i < n; ++i) { out.push_back(rs[i]->getCentreX()); out.push_back(rs[i]->getCentreY()); }
+  alg.freeAssociatedObjects();
+  return out;
+}
+int main() {
+  int bad = 0;
+  for (unsigned n = 2; n <= 7; ++n) {
+    std::vector<double> a = run(n, 1);
+    run(n + 1, 2);                       // unrelated work in between
+    std::vector<double> b = run(n, 1);
+    for (size_t i = 0; i < a.size(); ++i)
+      if (!(std::fabs(a[i] - b[i]) <= 1e-9)) {
+        printf("layout of %u coincident nodes: coordinate %zu is %.17g in the first run and %.17g when repeated after another layout\n", n, i, a[i], b[i]);
+        bad++; break;
+      }
+  }
+  if (bad) { printf("REPRODUCED: equal layout calls in one process give different positions (%d size(s))\n", bad); return 1; }
+  printf("not reproduced: repeated coincident-start layouts are identical\n");
+  return 0;
+}
+'''
+
+
+def replay_layout(job, obl, inputs, workdir):
+    libs = [build_lib(l, workdir) for l in ("libcola", "libvpsc")]
+    rc, out = native_run(REPLAY_LAYOUT, workdir, "replay_layout", extra=["-I", COLA], libs=libs, timeout=600)
+    if rc is None:
+        return False, out
+    return rc == 1, out
+
+
 def jobs(tier):
     js = []
     c01 = _c01()
@@ -208,6 +257,35 @@ def jobs(tier):
                   cxx=base + pr_tu + 'extern "C" double w_getNext(void *r) { return ((cola::PseudoRandom *)r)->getNext(); }\n',
                   enforce="w_getNext", defines=["JOB_getNext"], flags=["--sat-solver", "cadical"], backend="sat:cadical", slices=[S["getnext"], S["prclass"]], domain="every seed (2^32)",
                   expect=[r'postcondition']))
+    # ---------------- ConstrainedFDLayout::offsetDir: the random displacement of coincident nodes draws on state owned by the layout object only
+    gnb = slice_func("libcola/pseudorandom.cpp", r'^double PseudoRandom::getNextBetween\(double min, double max\)', "PseudoRandom::getNextBetween")
+    od = slice_func("libcola/colafd.cpp", r'^std::vector<double> ConstrainedFDLayout::offsetDir\(double minD\)', "ConstrainedFDLayout::offsetDir")
+    # the declaration of the generator is taken verbatim from cola.h (member or not is the code's choice, not the prelude's);
+    # a definition of it at namespace scope in colafd.cpp, if there is one, is carried along
+    rdecl = slice_lines("libcola/cola.h", r'^\s*(static\s+|mutable\s+)?PseudoRandom\s+random\s*;', 1, "ConstrainedFDLayout: declaration of `random`")
+    rdefs = re.findall(r'^[ \t]*(?:cola::)?PseudoRandom\s+ConstrainedFDLayout::random\b[^;]*;', strip_comments(read_repo("libcola/colafd.cpp")), re.M)
+    # getNext behind its own contract (job PseudoRandom_getNext enforces it)
+    pr_shim = ('extern "C" double w_getNext(void *r);\nnamespace cola {\n' + subst(S["prclass"], [(r'\bprivate:', 'public:', 1)]) +
+               "\ndouble PseudoRandom::getNext(void) { return w_getNext((void *)this); }\n}\n")
+    if rdefs:
+        # front-end workaround: a namespace-scope object constructed through a DEFAULT argument crashes goto-instrument ("identifier s was
+        # not found"); the default is read from the sliced class and written out explicitly, and the real constructor is carried along
+        mdef = re.search(r'PseudoRandom\(double s = ([^,)]+)\);', S["prclass"].text)
+        if not mdef:
+            raise Undecided("C20 offsetDir: cannot read the default seed from class PseudoRandom")
+        rdefs = [re.sub(r'(ConstrainedFDLayout::random)\s*;', r'\1(%s);' % mdef.group(1), d) for d in rdefs]
+        prctor = slice_func("libcola/pseudorandom.cpp", r'^PseudoRandom::PseudoRandom\(double s\)', "PseudoRandom::PseudoRandom")
+        gnb_text = prctor.text + "\n" + gnb.text
+    else:
+        gnb_text = gnb.text
+    od_cxx = (base + "#include <vector>\n#include <cmath>\n" + pr_shim + "namespace cola {\n" + gnb_text + "\n"
+              "class ConstrainedFDLayout { public:\n    std::vector<double> offsetDir(double minD);\n" + rdecl.text + "\n};\n" + "\n".join(rdefs) + "\n" + od.text + "\n}\n"
+              'extern "C" void w_offsetDir(void *layout, double minD, double *out) { std::vector<double> r = ((cola::ConstrainedFDLayout *)layout)->offsetDir(minD); out[0] = r[0]; out[1] = r[1]; }\n')
+    js.append(Job("offsetDir_frame", "U", spec, "h_offsetDir", cxx=od_cxx, enforce="w_offsetDir", replace=["w_getNext"], defines=["JOB_offsetDir", "JOB_getNext_contract"], stub_variant="bounded", cxx_defines=["VERIF_SQRT_UNINTERPRETED"],
+                  flags=["--sat-solver", "cadical", "--no-malloc-may-fail"], backend="sat:cadical", slices=[od, gnb, rdecl, S["prclass"]], unwind=3,
+                  domain="every seed, every minD; the two constant-bound loops (2 iterations) unwound with unwinding assertions",
+                  expect=[r'postcondition', r'assigns|assignable', r'unwind'], replay=replay_layout,
+                  note="frame condition: offsetDir writes only the generator state inside the layout object it is called on, which advances by exactly two draws"))
     # ---------------- A* orthogonal turn pruning: transposition symmetry (two calls of the real fragment)
     srch = slice_func(MP, r'^void AStarPathPrivate::search\(ConnRef \*lineRef, VertInf \*src, VertInf \*tar, VertInf \*start\)', "AStarPathPrivate::search")
     prune = fragment_between(srch, r'if \(isOrthogonal && !\(\*edge\)->isDummyConnection\(\)\)\s*\{\s*// Orthogonal routing optimisation',
@@ -262,8 +340,10 @@ TRUSTED = [
 ASSUMPTIONS = [
     "address tie-breaks NOT under obligation (no differing run could be replayed, unobservability not proved): CmpVertInf (libavoid/orthogonal.cpp), CmpVisEdgeRotation's non-orthogonal fallback (makepath.cpp), ActionInfo::operator< for ConnectionPinChange (its comment claims the order is unused)",
     "symmetry/translation obligations exist for two kernels only: transposition symmetry of the A* turn-pruning block, translation invariance of bends on integer-valued coordinates",
+    "offsetDir: the declaration of `random` is taken verbatim from cola.h and the frame condition is checked by goto-instrument's assigns instrumentation; sqrt is an "
+    "uninterpreted function there; getNext is assumed as `seed' = f(seed)` for an uninterpreted f (its enforced contract is the instance f = the documented LCG step)",
     "NOT decided (residue): bit-identical whole routes/layouts, scene symmetries and translation invariance of whole routes, permutation independence of VPSC, uninitialised reads outside the constructors covered by C15",
 ]
 EXPLANATION = ("Value-determinism of the ordering kernels through which allocation addresses could reach results: each comparator's result is proved to be a stated function of "
-               "field values and to evaluate no relational comparison of pointers to different objects; PseudoRandom::getNext is a function of the seed only; the A* turn-pruning decision is invariant under transposing the search state; "
+               "field values and to evaluate no relational comparison of pointers to different objects; PseudoRandom::getNext is a function of the seed only and ConstrainedFDLayout::offsetDir draws on (and writes) nothing but the generator inside its own layout object; the A* turn-pruning decision is invariant under transposing the search state; "
                "bends is invariant under integer translation.")
